@@ -117,6 +117,10 @@ class Report:
     # -- recording
     def ob(s, rule, ok, where, construct=None, message=None, detail=None, sample=None, loop_rule=False):
         """one obligation; a failed one becomes a violation keyed by rule + construct"""
+        if not ok and not loop_rule and message and s._mentions_uninlined_helper(message):
+            s.unknown('%s [%s at %s]: the value involves a call of a private helper the path evaluator could not inline (several paths inside an expression, a generator ...), so the rule did not see what it computes -- %s'
+                      % (rule, construct or '', where, message[:160]))
+            return None
         if not ok and not loop_rule and message and any(m in message for m in ('<loopvar ', '<unk ', '<localfunc ')):
             # the value that failed the rule contains a placeholder of the evaluator (a variable rewritten in a loop that was
             # abstracted, an unmodelled construct): the rule did not see the real value, so this is not a decision
@@ -130,6 +134,25 @@ class Report:
         elif sample is not None and len(s.samples) < 12:
             s.samples.append(sample)
         return ok
+
+    def _mentions_uninlined_helper(s, message):
+        """does the text of a failed obligation show a call `x._name(` of a private function / method of the repository that the
+        rules do not know by name?  (helpers the rules know are part of their vocabulary; unknown ones are normally inlined, and
+        when they still appear the evaluator could not look inside)"""
+        cx = getattr(s, 'cx', None)
+        if cx is None:
+            return False
+        import re
+        from .known_names import KNOWN
+        known_last = {k.split('.')[-1] for k in KNOWN}
+        for m in re.finditer(r'(?:\bself|\b[a-z_]+)\.(_[A-Za-z]\w*)\(', message):
+            name = m.group(1)
+            if name.startswith('__') or name in known_last:
+                continue
+            for d in cx.model.mods.values():
+                if name in d['funcs'] or any(isinstance(n, __import__('ast').FunctionDef) and n.name == name for c in d['classes'].values() for n in c.body):
+                    return True
+        return False
 
     def violation(s, rule, construct, where, message, detail=None):
         s.obligations.append(dict(rule=rule, ok=False, where=where))
